@@ -124,9 +124,11 @@ def run(index, tier="quick", seed=0) -> Result:
                 if m is not None and "orth" in m.tags:
                     sites.append(("rotate_order2_tensor", "transposed" in m.tags, e))
             if e.type == "dotcall" and e.func is fn:
-                for side in (e.left, e.right):
-                    if side is not None and "orth" in side.tags:
-                        sites.append(("dot", "transposed" in side.tags, e))
+                # effective matrix applied to the vector: M.dot(v) / np.dot(M, v) apply M, np.dot(v, M) applies M^T
+                if e.left is not None and "orth" in e.left.tags:
+                    sites.append(("dot", "transposed" in e.left.tags, e))
+                elif e.right is not None and "orth" in e.right.tags:
+                    sites.append(("dot", "transposed" not in e.right.tags, e))
         if not sites:
             res.not_in_fragment.append(f"FRAME-1 {k}: no use of the normal->z rotation found")
             continue
@@ -138,6 +140,25 @@ def run(index, tier="quick", seed=0) -> Result:
             res.ok("FRAME-1", k, sample={"site": k, "uses": [s[0] for s in sites]})
     from ..parallel import report as _copy1
     _copy1(res, index, lambda f: f['cls'] in ('Polygon', 'ConvexPolygon') and f['top'] in ('signed_area', 'area', 'perimeter', 'centroid', 'planar_moments_inertia', 'inertia_tensor', '_reorder_verts') or f['func'] in ('_align_points_by_normal', 'translate_inertia_tensor', 'rotate_order2_tensor'))
+    # ---------------------------------------------------------------- PAR of the parallel-axis mass
+    fn = index.effective_prop(P, "inertia_tensor").getter
+    it = Interp(index)
+    r = it.run_entry(fn, P)
+    tr = [e for e in r["events"] if e.type == "enter" and not e.entry and e.callee.name == "translate_inertia_tensor" and len(e.path) == 2]
+    if not tr:
+        res.not_in_fragment.append("PAR Polygon.inertia_tensor: translate_inertia_tensor call not found")
+    for e in tr:
+        vals = list(e.argvals) + [e.kwvals.get(k) for k in ("volume",)]
+        mass = e.kwvals.get("volume", e.argvals[2] if len(e.argvals) > 2 else None)
+        getters = {t[1] for t in (mass.tags if mass is not None else ()) if isinstance(t, tuple) and t[0] == "getter"}
+        k = "Polygon.inertia_tensor:mass"
+        if "signed_area" in getters and "area" not in getters:
+            res.bad("PAR", k, e.where(), "Polygon.inertia_tensor shifts the tensor with the orientation-odd signed area: for vertices listed "
+                    "clockwise about the normal the parallel-axis term A(|c|^2 1 - c c^T) enters with the wrong sign")
+        elif "area" in getters:
+            res.ok("PAR", k)
+        else:
+            res.not_in_fragment.append(f"PAR {k}: mass argument provenance {sorted(getters)}")
     return res
 
 
